@@ -98,8 +98,11 @@ def check(c):
     # the executemany filter
     es = c.func('rundb', 'CylcWorkflowDAO._execute_stmt')
     flt = [n for n in c.idx.walk(es.node) if isinstance(n, ast.ListComp)]
-    ok = any([norm(i) for i in n.generators[0].ifs] ==
-             ["i[0] != 'CYLC_TEMPLATE_VARS'"] for n in flt)
+    # (whatever the comprehension variable is called)
+    ok = any(len(n.generators) == 1 and norm(n.elt) == norm(
+        n.generators[0].target) and [norm(i) for i in n.generators[0].ifs] ==
+        [f"{norm(n.generators[0].target)}[0] != 'CYLC_TEMPLATE_VARS'"]
+        for n in flt)
     c.ob('C37.filter', f'{es.fq} :: drops only the CYLC_TEMPLATE_VARS row',
          ok, c.where(es.node, es), '')
 
